@@ -130,7 +130,8 @@ func (g *Gen) Object(depth int, budget *int) string {
 		key := g.String(12)
 		// keys that differ only in case are in the ambiguity set of Go's decoder: avoid
 		lk := strings.ToLower(key)
-		if seen[lk] {
+		if seen[lk] || lk == "cid" {
+			// ("cid" is the member through which the test dispatcher finds its script)
 			continue
 		}
 		seen[lk] = true
